@@ -215,6 +215,9 @@ func (c *TCPConn) sendRaw(b []byte) (uint64, error) {
 	// First write the size
 	packetSize := Size(len(b))
 	if err := binary.Write(c.conn, globalOrder, packetSize); err != nil {
+		// Part of the header may be on the wire: the stream cannot be used
+		// any further, so nobody may send on this connection again.
+		c.Close()
 		return 0, xerrors.Errorf("buffer write: %v", err)
 	}
 	// Then send everything through the connection
@@ -224,6 +227,9 @@ func (c *TCPConn) sendRaw(b []byte) (uint64, error) {
 	for sent < packetSize {
 		n, err := c.conn.Write(b[sent:])
 		if err != nil {
+			// The frame is only partly written: whatever is sent on this
+			// connection afterwards would be read as the rest of its body.
+			c.Close()
 			sentLen := 4 + uint64(sent)
 			c.updateTx(sentLen)
 			return sentLen, xerrors.Errorf("sending: %w", handleError(err))
